@@ -74,6 +74,31 @@ AddCase(seq) ==
     IN [kind |-> "add", seq |-> seq, res |-> r.res, final_signers |-> r.c.signers, final_valid |-> CommitQCValid(r.c)]
 PrintAdds(n) == \A seq \in AddSeqs(n) : PrintT(<<"CASE", ToJson(AddCase(seq))>>)
 
+(* ---- incremental assembly of a TIMEOUT certificate: every sequence of <= n adds, then completed by valid votes of everybody else ---- *)
+TAddKinds == {"ok1", "ok2", "nonmember", "badsig", "view", "badcontent"}
+TM1 == [view |-> 3, g |-> TRUE, hv |-> NoVote, hvg |-> TRUE, hq |-> NoCQC]
+TM2 == [TM1 EXCEPT !.hv = V1, !.hq = NestedQC("none")]
+TAddMsg(from, k) ==
+    [from |-> IF k = "nonmember" THEN 0 ELSE from,
+     msg |-> CASE k = "ok2" -> TM2 [] k = "view" -> [TM1 EXCEPT !.view = 4] [] k = "badcontent" -> [TM1 EXCEPT !.hv = V1, !.hvg = FALSE] [] OTHER -> TM1,
+     sigok |-> k # "badsig"]
+RECURSIVE RunTAdds(_, _, _)
+RunTAdds(t, seq, acc) ==
+    IF seq = <<>> THEN [t |-> t, res |-> acc]
+    ELSE LET m == TAddMsg(seq[1].from, seq[1].k) IN RunTAdds(TimeoutAdd(t, m), Tail(seq), Append(acc, TimeoutAddOK(t, m)))
+EmptyTQC == [view |-> 3, g |-> TRUE, groups |-> <<>>, sig |-> TRUE]
+RECURSIVE Complete(_, _)
+Complete(t, vs) == IF vs = {} THEN t ELSE LET v == CHOOSE x \in vs : \A y \in vs : x <= y IN Complete(TimeoutAdd(t, TAddMsg(v, "ok1")), vs \ {v})
+TAddSeqs(n) == UNION {[1..k -> [from : Validators, k : TAddKinds]] : k \in 1..n}
+TAddCase(seq) ==
+    LET r == RunTAdds(EmptyTQC, seq, <<>>)
+        fin == Complete(r.t, Validators \ GroupSigners(r.t))
+    IN [kind |-> "tadd", seq |-> seq, res |-> r.res, signers |-> GroupSigners(r.t), ngroups |-> Len(r.t.groups),
+        final_groups |-> Len(fin.groups), final_valid |-> TimeoutQCValid(fin)]
+PrintTAdds(n) == \A seq \in TAddSeqs(n) : PrintT(<<"CASE", ToJson(TAddCase(seq))>>)
+
+ASSUME Mode = "tadd2" => PrintTAdds(2)
+ASSUME Mode = "tadd3" => PrintTAdds(3)
 ASSUME Mode = "cqc" => PrintCQC
 ASSUME Mode = "tqc" => PrintTQC
 ASSUME Mode = "tqc3" => PrintTQC3
